@@ -268,7 +268,14 @@ auto ramalhete_queue<T, Policies...>::pop() -> std::optional<value_type> {
         break; // No more nodes in the queue
       }
 
+      // _tail must not be left behind on a node that gets unlinked: a push operation could otherwise acquire
+      // a guard for it (successfully validated against _tail) after it has already been retired or reclaimed.
+      // This can happen if the thread that appended next has not yet updated _tail -> help it.
       marked_ptr expected = h;
+      // this release-CAS synchronizes-with the acquire-load (3)
+      _tail.compare_exchange_strong(expected, next, std::memory_order_release, std::memory_order_relaxed);
+
+      expected = h;
       // (13) - this release-CAS synchronizes-with the acquire-load (1, 9)
       if (_head.compare_exchange_strong(expected, next, std::memory_order_release, std::memory_order_relaxed)) {
         h.reclaim(); // The old node has been unlinked -> reclaim it.
